@@ -109,7 +109,7 @@ def observe(sc):
     m = model_of(sc)
     m.run()
     p = m.prob
-    o = {"CL": p.get_val("aero.CL"), "CD": p.get_val("aero.CD"), "CM": p.get_val("aero.CM"), "M": p.get_val("aero.total_perf.moment.M")}
+    o = {"CL": p.get_val("aero.CL"), "CD": p.get_val("aero.CD"), "CM": p.get_val("aero.CM"), "M": p.get_val("aero.total_perf.moment.M"), "tL": p.get_val("aero.total_perf.L"), "tD": p.get_val("aero.total_perf.D")}
     per = {k: [] for k in ("S_ref", "sCL", "sCD", "sCDi", "sCDv", "sCDw", "L", "D", "sec_forces", "mesh_point_forces", "circulations", "Cl", "widths", "chords", "normals")}
     circ = np.array(p.get_val("aero.circulations"))
     off = 0
@@ -241,7 +241,7 @@ def predict_and_compare(act, sc_old, ob_old, sc_new, ob_new, tol=1e-9):
         f = rat(lw["factor"])
         sg = np.array(lw["sign"], dtype=float)
         rs = lw["restrict"]
-        if o in ("CL", "CD", "CM", "M"):
+        if o in ("CL", "CD", "CM", "M", "tL", "tD"):
             if rs == "real":
                 continue  # totals of the explicit-image model include the image surfaces
             pred = ob_old[o] * f * (sg if o in VECTOR else 1.0)
@@ -299,6 +299,9 @@ def _err(new, pred, o, ob_old):
         scale = max(scale, 1e-3)
     if o == "M":
         scale = max(scale, 1e-6 * float(np.max(np.abs(np.concatenate([x.ravel() for x in ob_old["sec_forces"]])))))
+    if o in ("tL", "tD"):
+        # totals of several surfaces may cancel (a surface and its explicit image): scale = the largest surface contribution
+        scale = max(scale, max(float(np.max(np.abs(x))) for x in ob_old["L"]))
     scale = max(scale, 1e-300)
     return float(np.max(np.abs(new - pred))) / scale
 
